@@ -1501,6 +1501,13 @@ def main():
              "rewritten" if changed else "unchanged"))
     if "--write-baseline" in sys.argv:
         base = {n: c["pairs"] for n, c in sorted(info["classes"].items()) if not c["safe"]}
+        if "--merge" in sys.argv and (HERE / "static_unsafe_baseline.json").exists():
+            # union with the existing list (used to cover the tree with props/C26/fix.patch applied)
+            old = json.loads((HERE / "static_unsafe_baseline.json").read_text())
+            for n, pairs in old.items():
+                cur = base.setdefault(n, [])
+                cur += [p for p in pairs if p not in cur]
+            base = dict(sorted(base.items()))
         (HERE / "static_unsafe_baseline.json").write_text(json.dumps(base, indent=0, sort_keys=True) + "\n")
         print("baseline written: %d transformations, %d pairs" % (len(base), sum(len(v) for v in base.values())))
     if "-v" in sys.argv:
